@@ -120,6 +120,21 @@ type appEntry struct {
 	kind        string // "acct", "auth", "vs-acct", "vs-auth"
 	id          uint32
 	vendorFirst bool // Vendor-Id before the application id inside the group
+	// a vendor-specific group may name a second application id (RFC 3588 style groups)
+	typ2 string // "", "auth" or "acct"
+	id2  uint32
+}
+
+// flat lists the (type, id) pairs the entries name, one per element.
+func (s cerSpec) flat() []appEntry {
+	var out []appEntry
+	for _, en := range s.entries {
+		out = append(out, appEntry{kind: en.kind, id: en.id})
+		if en.typ2 != "" {
+			out = append(out, appEntry{kind: "vs-" + en.typ2, id: en.id2})
+		}
+	}
+	return out
 }
 
 type cerSpec struct {
@@ -141,7 +156,7 @@ func (e appEntry) typ() string {
 // sharedIDs is the reference set of application ids the CER shares with the local dictionary.
 func (s cerSpec) sharedIDs() []uint32 {
 	set := map[uint32]bool{}
-	for _, en := range s.entries {
+	for _, en := range s.flat() {
 		if en.id == 0xffffffff || refSupports(en.id, en.typ()) {
 			set[en.id] = true
 		}
@@ -157,7 +172,7 @@ func (s cerSpec) sharedIDs() []uint32 {
 // sharedApps is the typed version of sharedIDs: (id, type) pairs the CER names and the dictionary supports.
 func (s cerSpec) sharedApps() []appKey {
 	set := map[appKey]bool{}
-	for _, en := range s.entries {
+	for _, en := range s.flat() {
 		if en.id != 0xffffffff && refSupports(en.id, en.typ()) {
 			set[appKey{en.id, en.typ()}] = true
 		}
@@ -221,10 +236,18 @@ func (e appEntry) avp() RefAVP {
 	if strings.HasPrefix(e.kind, "vs-") {
 		vid := RefAVP{Code: avpVendorID, Flags: 0x40, Data: u32(10415)}
 		g := RefAVP{Code: avpVSApp, Flags: 0x40}
+		apps := []RefAVP{inner}
+		if e.typ2 != "" {
+			c2 := uint32(avpAuthApp)
+			if e.typ2 == "acct" {
+				c2 = avpAcctApp
+			}
+			apps = append(apps, RefAVP{Code: c2, Flags: 0x40, Data: u32(e.id2)})
+		}
 		if e.vendorFirst {
-			g.Group = []RefAVP{vid, inner}
+			g.Group = append([]RefAVP{vid}, apps...)
 		} else {
-			g.Group = []RefAVP{inner, vid}
+			g.Group = append(apps, vid)
 		}
 		return g
 	}
@@ -265,6 +288,10 @@ func drawEntry(t *Tape) appEntry {
 	kind := []string{"auth", "acct", "vs-auth", "vs-acct"}[t.Draw(4)]
 	en := appEntry{kind: kind, vendorFirst: t.Chance(1, 2)}
 	en.id = entryID(en.typ(), t.Draw(4), t.Draw(4))
+	if strings.HasPrefix(kind, "vs-") && t.Chance(1, 4) {
+		en.typ2 = []string{"auth", "acct"}[t.Draw(2)]
+		en.id2 = entryID(en.typ2, t.Draw(4), t.Draw(4))
+	}
 	return en
 }
 
